@@ -7,10 +7,13 @@ From Passage Require Import Lib.Bytes Limiter.F32 Limiter.Bucket Limiter.Limiter
    dec       : what enqueue returned for each attempt
    trk       : verif_keys() (sorted ascending) after EVERY attempt, in order
    solo      : per key (ascending), what enqueue returned when only that key's attempts were
-               replayed on a fresh limiter *)
+               replayed on a fresh limiter
+   dup, dupr : the same history replayed on a fresh limiter with every REJECTED attempt made a
+               second time at the same instant: dup = the decisions at the original attempts,
+               dupr = the decisions of the inserted repetitions *)
 Inductive c13case :=
 | C13 (lim d : Z) (hist : list (Z * Z)) (dec : list bool) (trk : list (list Z))
-      (solo : list (Z * list bool))
+      (solo : list (Z * list bool)) (dup dupr : list bool)
 (* a burst: n attempts of one key at one instant on a fresh limiter, `admitted` of them admitted *)
 | SAT (lim d n admitted : Z).
 
@@ -117,6 +120,19 @@ Definition mon_independent (o : obs) (keys : list Z) (solo : list (Z * list bool
                     | Some l => bools_eqb (decisions_of k o) l
                     | None => false end) keys.
 
+(* (e) rejected attempts consume nothing: repeating each rejected attempt at the same instant
+   is rejected again and changes no other decision (the observable side of C13_reject_free) *)
+Definition mon_reject_free (dec dup dupr : list bool) : bool :=
+  bools_eqb dup dec && forallb negb dupr
+  && (length dupr =? length (filter negb dec))%nat.
+
+(* the history with every rejected attempt repeated, and which positions are repetitions *)
+Fixpoint dup_hist (h : list (Z * Z)) (dec : list bool) : list (Z * Z * bool) :=
+  match h, dec with
+  | kt :: r, b :: dr => if b then (kt, false) :: dup_hist r dr else (kt, false) :: (kt, true) :: dup_hist r dr
+  | _, _ => []
+  end.
+
 Definition monitor_c13 (lim d : Z) (hist : list (Z * Z)) (dec : list bool)
            (trk : list (list Z)) (solo : list (Z * list bool)) : bool :=
   let o := zip_dec hist dec in
@@ -138,16 +154,21 @@ Definition model_solo (c : cfg) (hist : list (Z * Z)) (k : Z) : list bool :=
    monitor is false on the implementation's observation; 4 = skipped (outside the model) *)
 Definition check_c13 (x : c13case) : Z :=
   match x with
-  | C13 lim d hist dec trk solo =>
+  | C13 lim d hist dec trk solo dup dupr =>
       let c := Cfg lim d in
       if negb (cfg_ok c && (1 <=? lim) && monotone_from 0 hist) then 4 else
       corr (bools_eqb (model_dec c hist) dec
+            (* the model on the history with the repetitions *)
+            && (let dh := dup_hist hist dec in
+                let md := model_dec c (map fst dh) in
+                bools_eqb (map snd (filter (fun x => negb (snd (fst x))) (combine dh md))) dup
+                && bools_eqb (map snd (filter (fun x => snd (fst x)) (combine dh md))) dupr)
             && zss_eqb (model_trk c hist) trk
             (* the one-key machine of the theorems, on each key's sub-history *)
             && forallb (fun k => match solo_of k solo with
                                  | Some l => bools_eqb (model_solo c hist k) l
                                  | None => false end) (keys_of hist))
-      + moni (monitor_c13 lim d hist dec trk solo)
+      + moni (monitor_c13 lim d hist dec trk solo && mon_reject_free dec dup dupr)
   | SAT lim d n admitted =>
       let c := Cfg lim d in
       if negb (cfg_ok c && (1 <=? lim) && (0 <=? n)) then 4 else
@@ -165,28 +186,36 @@ Example check_ok :
   check_c13 (C13 1 1000000000
     [(7, 0); (3, 0); (7, 500000000); (3, 2000000000); (3, 2000000001)]
     [true; true; false; true; false] [[7]; [3; 7]; [3; 7]; [3]; [3]]
-    [(3, [true; true; false]); (7, [true; false])]) = 0.
+    [(3, [true; true; false]); (7, [true; false])] [true; true; false; true; false] [false; false]) = 0.
 Proof. vm_compute. reflexivity. Qed.
 (* a wrong observation: a third admission of key 7 within one window (limit 1): both the
    correspondence and the monitor object *)
 Example check_rejects_excess :
   check_c13 (C13 1 1000000000
-    [(7, 0); (7, 1); (7, 2)] [true; true; true] [[7]; [7]; [7]] [(7, [true; true; true])]) = 3.
+    [(7, 0); (7, 1); (7, 2)] [true; true; true] [[7]; [7]; [7]] [(7, [true; true; true])] [true; true; true] []) = 3.
 Proof. vm_compute. reflexivity. Qed.
 (* a stale tracked key: 5 last attempted at 0 but is still reported at 4 s (d = 1 s) *)
 Example check_rejects_stale :
   check_c13 (C13 1 1000000000
-    [(5, 0); (7, 4000000000)] [true; true] [[5]; [5; 7]] [(5, [true]); (7, [true])]) = 3.
+    [(5, 0); (7, 4000000000)] [true; true] [[5]; [5; 7]] [(5, [true]); (7, [true])] [true; true] []) = 3.
 Proof. vm_compute. reflexivity. Qed.
 (* an idle key turned away *)
 Example check_rejects_idle :
   check_c13 (C13 1 1000000000
-    [(5, 0); (5, 2000000000)] [true; false] [[5]] [(5, [true; false])]) = 3.
+    [(5, 0); (5, 2000000000)] [true; false] [[5]] [(5, [true; false])] [true; false] [false]) = 3.
 Proof. vm_compute. reflexivity. Qed.
 (* interference: key 7 alone would be admitted *)
 Example check_rejects_interference :
   check_c13 (C13 1 1000000000
-    [(5, 0); (7, 0)] [true; false] [[5]] [(5, [true]); (7, [true])]) = 3.
+    [(5, 0); (7, 0)] [true; false] [[5]] [(5, [true]); (7, [true])] [true; false] [false]) = 3.
+Proof. vm_compute. reflexivity. Qed.
+
+(* a limiter that counts rejected attempts: limit 1, d = 10 s; attempts at 0 (admitted), 1 ns
+   (rejected), 12 s: with the rejected one repeated the attempt at 12 s is turned away *)
+Example check_rejects_counted_rejections :
+  check_c13 (C13 1 10000000000
+    [(5, 0); (5, 1); (5, 12000000000)] [true; false; true] [[5]; [5]; [5]] [(5, [true; false; true])]
+    [true; false; false] [false]) = 3.
 Proof. vm_compute. reflexivity. Qed.
 
 Example check_burst_ok : check_c13 (SAT 60 1000000000 100 60) = 0.
